@@ -39,8 +39,10 @@ package premium
 //@ ensures present: uf("hasRate", false, peer, asset, operation) ==> !(result1 != nil && errors.Is(result1, ErrRateNotFound))
 //@ assigns nothing
 
+//@ ghost storeMiss bool
 //@ func (*BBoltPremiumStore).GetDefaultRate
 //@ property C27
+//@ sets ghost.storeMiss = (result1 != nil && errors.Is(result1, ErrRateNotFound))
 //@ ensures found: result1 == nil ==> (uf("hasRate", false, "default", asset, operation) && result0 != nil && result0.premiumRate != nil && result0.premiumRate.ppmValue == uf("storedRate", int64(0), "default", asset, operation))
 //@ ensures missing: (result1 != nil && errors.Is(result1, ErrRateNotFound)) ==> !uf("hasRate", false, "default", asset, operation)
 
@@ -51,13 +53,17 @@ package premium
 //@ ensures peer-rate: (result1 == nil && uf("hasRate", false, peerID, asset, operation)) ==> (result0 != nil && result0.premiumRate != nil && result0.premiumRate.ppmValue == uf("storedRate", int64(0), peerID, asset, operation))
 //@ ensures global-rate: (result1 == nil && !uf("hasRate", false, peerID, asset, operation) && uf("hasRate", false, "default", asset, operation)) ==> (result0 != nil && result0.premiumRate != nil && result0.premiumRate.ppmValue == uf("storedRate", int64(0), "default", asset, operation))
 //@ ensures builtin-rate: (result1 == nil && !uf("hasRate", false, peerID, asset, operation) && !uf("hasRate", false, "default", asset, operation)) ==> (result0 != nil && result0.premiumRate != nil && result0.premiumRate.ppmValue == DefaultPremiumRate[asset][operation])
-//@ assigns nothing
+//@ assigns ghost.storeMiss
 
 //@ func (*Setting).GetDefaultRate
 //@ property C27
 //@ ensures global-rate: (result1 == nil && uf("hasRate", false, "default", asset, operation)) ==> (result0 != nil && result0.premiumRate != nil && result0.premiumRate.ppmValue == uf("storedRate", int64(0), "default", asset, operation))
 //@ ensures builtin-rate: (result1 == nil && !uf("hasRate", false, "default", asset, operation)) ==> (result0 != nil && result0.premiumRate != nil && result0.premiumRate.ppmValue == DefaultPremiumRate[asset][operation])
-//@ assigns nothing
+// the built-in table is used whenever the store has no global rate
+//@ ensures builtin-rate-is-available: (ghost.storeMiss && has(DefaultPremiumRate, asset) && has(DefaultPremiumRate[asset], operation) && asset != AsserUnspecified && operation != OperationUnspecified) ==> result1 == nil
+// no stored rate and no built-in entry for this asset / operation: an error, not a silent zero rate
+//@ ensures no-rate-is-an-error: (!uf("hasRate", false, "default", asset, operation) && !(has(DefaultPremiumRate, asset) && has(DefaultPremiumRate[asset], operation))) ==> result1 != nil
+//@ assigns ghost.storeMiss
 
 // the effective rate and the premium as spec abbreviations (used by C11/C12 contracts in package swap too)
 //@ define premiumRateOf(peer, asset, op) ite(uf("hasRate", false, peer, asset, op), uf("storedRate", int64(0), peer, asset, op), ite(uf("hasRate", false, "default", asset, op), uf("storedRate", int64(0), "default", asset, op), DefaultPremiumRate[asset][op]))
@@ -69,7 +75,7 @@ package premium
 //@ ensures peer-rate: (result1 == nil && uf("hasRate", false, peerID, asset, operation)) ==> result0 == int64(amtSat/1000000)*uf("storedRate", int64(0), peerID, asset, operation) + int64(amtSat%1000000)*uf("storedRate", int64(0), peerID, asset, operation)/1000000
 //@ ensures global-rate: (result1 == nil && !uf("hasRate", false, peerID, asset, operation) && uf("hasRate", false, "default", asset, operation)) ==> result0 == int64(amtSat/1000000)*uf("storedRate", int64(0), "default", asset, operation) + int64(amtSat%1000000)*uf("storedRate", int64(0), "default", asset, operation)/1000000
 //@ ensures builtin-rate: (result1 == nil && !uf("hasRate", false, peerID, asset, operation) && !uf("hasRate", false, "default", asset, operation)) ==> result0 == int64(amtSat/1000000)*DefaultPremiumRate[asset][operation] + int64(amtSat%1000000)*DefaultPremiumRate[asset][operation]/1000000
-//@ assigns nothing
+//@ assigns ghost.storeMiss
 
 // The built-in default table (package initialiser).
 //@ func init
